@@ -54,8 +54,9 @@ fn gen_model(r: &mut Rng, kind: &str) -> LinearModel {
     let mut m = LinearModel::new();
     let nv = if kind == "bigint" { 4 + r.below(3) } else { 1 + r.below(if kind == "shadow" { 2 } else { 4 }) };
     let names = ["x", "y", "z", "w", "u", "v", "t"];
+    let pin = (kind == "int" || kind == "mixed" || kind == "bigint") && nv >= 2 && r.chance(1, 6);
     for i in 0..nv {
-        let t = match kind {
+        let t = if pin && i == 0 { VariableType::IntegerRange(1, 1) } else { match kind {
             "lp" | "shadow" => match r.below(6) {
                 0 | 1 => VariableType::NonNegativeReal(0.0, f64::INFINITY),
                 2 => VariableType::Real(f64::NEG_INFINITY, f64::INFINITY),
@@ -66,7 +67,7 @@ fn gen_model(r: &mut Rng, kind: &str) -> LinearModel {
             "bigint" => { let lo = r.range(-2, 0) as i32; VariableType::IntegerRange(lo, lo + r.range(2, 6) as i32) }
             "int" => match r.below(3) { 0 => VariableType::Boolean, _ => { let lo = r.range(-2, 1) as i32; VariableType::IntegerRange(lo, lo + r.range(0, 4) as i32) } },
             _ => match r.below(6) { 0 => VariableType::Boolean, 1 | 2 => { let lo = r.range(-2, 1) as i32; VariableType::IntegerRange(lo, lo + r.range(0, 4) as i32) }, 3 => if r.chance(1, 2) { VariableType::NonNegativeReal(0.0, r.range(1, 6) as f64) } else { let lo = r.range(1, 3) as f64 * 0.5; VariableType::NonNegativeReal(lo, if r.chance(1, 2) { f64::INFINITY } else { lo + r.range(0, 4) as f64 }) }, 4 => VariableType::Real(r.range(-3, 0) as f64, r.range(1, 4) as f64), _ => VariableType::NonNegativeReal(0.0, f64::INFINITY) },
-        };
+        } };
         m.add_variable(names[i], t);
     }
     let coefs = [0.0, 1.0, -1.0, 2.0, -2.0, 1.0, 3.0, 0.5, -3.0];
@@ -79,6 +80,9 @@ fn gen_model(r: &mut Rng, kind: &str) -> LinearModel {
             m.add_named_constraint(c, cmp, rhs, &format!("r{j}")); } else { m.add_constraint(c, cmp, rhs); }
     }
     let mut obj: Vec<f64> = (0..nv).map(|_| *r.pick(&coefs)).collect();
+    // integer models: now and then the first variable is pinned to 1 and carries a large objective coefficient, so the optimum
+    // is a large base value plus small integer steps - where a hidden relative tolerance of the search would show
+    if pin { obj[0] = *r.pick(&[30000.0, 100000.0, -50000.0]); }
     // bigint (C15): a third of the models have a small objective (|value| < 1 is where a relative gap and an absolute one part)
     let small = kind == "bigint" && r.chance(1, 3);
     if small { for c in obj.iter_mut() { *c *= 0.03125; } }
